@@ -94,6 +94,16 @@ func (b *Backend) Get(p string) ([]byte, bool) {
 	return rec.Body.Bytes(), true
 }
 
+// Remove deletes what is stored under p directly (the backend's owner removed
+// the object; no network). Reports whether the storage directory is known.
+func (b *Backend) Remove(p string) bool {
+	if b.Dir == "" {
+		return false
+	}
+	os.Remove(filepath.Join(b.Dir, strings.ReplaceAll(p, ":", "/")))
+	return true
+}
+
 // Put stores data under p directly (harness seeding, no network).
 func (b *Backend) Put(p string, data []byte) error {
 	rec := httptest.NewRecorder()
